@@ -15,6 +15,16 @@ CHECKS = {
         note="Bounded: N<=3 points, <=5 calls; point identity via f=10^id, Z=z(1-0.5j); TLC 1.8, the TLA+ value reader and the replay driver are trusted.",
         technique="TLA+ spec (DataSet.tla) + TLC exhaustive BFS; spec->code replay of every TLC-generated history with per-step state comparison",
     ),
+    "C14": dict(
+        text="The parameter store of Element (specs/ElementParams.tla: set_values/set_lower_limits/set_upper_limits/set_fixed in "
+             "keyword, positional and malformed forms, set_label, reset_parameter(s), copy/deepcopy, to_string->parse_cdc, two live "
+             "instances) is model-checked for lower<upper, clamping, refusal-is-a-no-op, reset-restores and 'the implementation's "
+             "copy/reset order is never refused' in every reachable state; every history is replayed on every registered "
+             "(class, parameter) role of the matching limit shape and compared with the model after every call.",
+        design_ref="§4 C14",
+        note="Bounded: histories <=4 calls, 9-rank value grid per parameter placed around that parameter's class defaults; TLC, the value reader and the replay driver are trusted.",
+        technique="TLA+ spec (ElementParams.tla) + TLC exhaustive BFS per limit shape; spec->code replay of every history on every registered class with per-step comparison",
+    ),
 }
 
 NOT_APPLICABLE = {
